@@ -156,7 +156,7 @@ def check_case(case):
                 return res
             if not math.isfinite(val) or abs(val - want[j]) > TOL:
                 res.fail(
-                    f"{ID}/inversion/{where}/point={kind}",
+                    f"{ID}/inversion/{where}",
                     f"grid n={n} deg={deg} mode0={mode0} x={x!r} ({kind}) j={j}: inverted {val!r} (quad err {err:.1e}), "
                     f"x-space p_j(x) = {want[j]!r}, |dev| {abs(val - want[j]):.3e} > {TOL:g}",
                 )
